@@ -300,6 +300,80 @@ theorem strobe_single_cycle (c : BankCfg) (hfit : c.Fits) (s : BankState) (i : B
       · have : ¬ (i.bus.adr = c.wordAdr k (lastWord c.ord (nwords c.bw (c.spec k).size))) := fun h => hj (hiff.mp h)
         simp [hj, this]
 
+/-- What the device sees of register `k` in a cycle. -/
+theorem out_reg (c : BankCfg) (s : BankState) (i : BankIn) (k : Nat) (hk : k < c.regs.length) :
+    ((bank c).out s i).regs.getD k default = regOut c k (c.spec k) (s.reg k) i.bus := by
+  simp [bank, List.getD_eq_getElem?_getD, hk, BankCfg.spec, BankState.reg]
+
+/-- **Read strobes are caused only by reads of that register**: the `we` strobe of a status register is high in a
+    cycle iff that cycle is a bus read (`re`) of the register's strobe word; it is combinational, hence exactly as
+    long as the access. -/
+theorem read_strobe_exact (c : BankCfg) (hfit : c.Fits) (s : BankState) (i : BankIn) (k : Nat)
+    (hk : k < c.regs.length) (hkind : (c.spec k).kind = .status) (hsz : 0 < nwords c.bw (c.spec k).size) :
+    (((bank c).out s i).regs.getD k default).we =
+      (i.bus.re && decide (i.bus.adr = c.wordAdr k (lastWord c.ord (nwords c.bw (c.spec k).size)))) := by
+  have hraw : (c.spec k).kind ≠ .raw := by rw [hkind]; decide
+  have hvl : c.ValidWord k (lastWord c.ord (nwords c.bw (c.spec k).size)) :=
+    ⟨hk, by rw [show c.regs.getD k default = c.spec k from rfl, regWords_of_not_raw _ _ hraw]; exact lastWord_lt _ _ hsz⟩
+  rw [out_reg c s i k hk]
+  simp only [regOut, hkind]
+  cases hh : c.hitReg i.bus.adr k with
+  | none =>
+    have hne : i.bus.adr ≠ c.wordAdr k (lastWord c.ord (nwords c.bw (c.spec k).size)) := by
+      intro h
+      rw [h, c.hitReg_wordAdr k _ hfit hvl] at hh
+      cases hh
+    simp [hne]
+  | some sc =>
+    obtain ⟨j, hv, hsc, ha⟩ := c.hitReg_inv _ _ _ hh
+    have hlast : sc.last = (j == lastWord c.ord (nwords c.bw (c.spec k).size)) := by
+      rw [hsc]; exact simple_last c k j hraw
+    simp only [hlast]
+    by_cases hj : j = lastWord c.ord (nwords c.bw (c.spec k).size)
+    · subst hj; simp [ha]
+    · have : i.bus.adr ≠ c.wordAdr k (lastWord c.ord (nwords c.bw (c.spec k).size)) := by
+        rw [ha]; intro h; exact hj (c.wordAdr_injective _ _ _ _ hv hvl h).2
+      simp [hj, this]
+
+/-- Raw `CSR`: `re`/`we` are high exactly during a bus write/read of its address and `r` carries the written data. -/
+theorem raw_strobes_exact (c : BankCfg) (hfit : c.Fits) (s : BankState) (i : BankIn) (k : Nat)
+    (hk : k < c.regs.length) (hkind : (c.spec k).kind = .raw) :
+    let o := ((bank c).out s i).regs.getD k default
+    o.re = (i.bus.we && decide (i.bus.adr = c.wordAdr k 0)) ∧
+    o.we = (i.bus.re && decide (i.bus.adr = c.wordAdr k 0)) ∧
+    o.r = trunc (c.spec k).size i.bus.datW := by
+  have hv0 : c.ValidWord k 0 := ⟨hk, by rw [show c.regs.getD k default = c.spec k from rfl]; simp [regWords, hkind]⟩
+  intro o
+  have ho : o = regOut c k (c.spec k) (s.reg k) i.bus := out_reg c s i k hk
+  rw [ho]
+  simp only [regOut, hkind]
+  cases hh : c.hitReg i.bus.adr k with
+  | none =>
+    have hne : i.bus.adr ≠ c.wordAdr k 0 := by
+      intro h
+      rw [h, c.hitReg_wordAdr k _ hfit hv0] at hh
+      cases hh
+    simp [hne]
+  | some sc =>
+    obtain ⟨j, hv, _, ha⟩ := c.hitReg_inv _ _ _ hh
+    have hj : j = 0 := by
+      have := hv.2
+      rw [show c.regs.getD k default = c.spec k from rfl] at this
+      simp [regWords, hkind] at this
+      exact this
+    subst hj
+    simp [ha]
+
+/-- Writable status (`read_only=False`): a bus write changes exactly the addressed bits of its `r` register. -/
+theorem status_write_exact (c : BankCfg) (hfit : c.Fits) (s : BankState) (i : BankIn) (k j : Nat)
+    (hv : c.ValidWord k j) (hkind : (c.spec k).kind = .status) (hwfd : (c.spec k).wfd = true)
+    (hwe : i.bus.we = true) (hadr : i.bus.adr = c.wordAdr k j) :
+    (((bank c).next s i).reg k).val =
+      setSlice (j * c.bw) (wordBits c.bw (c.spec k).size j) (s.reg k).val i.bus.datW := by
+  have hraw : (c.spec k).kind ≠ .raw := by rw [hkind]; decide
+  obtain ⟨hlo, hnb⟩ := simple_lo c k j hraw
+  simp only [next_reg c s i k hv.1, hwe, hadr, if_true, c.hitReg_wordAdr k j hfit hv, regNext, hkind, hwfd, hlo, hnb]
+
 /-! ## Histories
 
 The step theorems above hold in every state.  Stated over histories (`ins` = any sequence of bus accesses
@@ -526,6 +600,13 @@ theorem sram_write_read (c : SramCfg) (s : SramState) (i : SramIn) (hcpm : c.cpm
     simp only [Nat.zero_mul, Nat.zero_mod, Nat.add_zero, Nat.mod_mod]
     exact Nat.mod_mod_of_dvd _ (Nat.pow_dvd_pow 2 hw)
   rw [this]
+
+/-- **Paging**: with a page register of `pageBits` bits, the memory word addressed is selected by the page value in
+    the upper address bits and by the bus address in the lower ones. -/
+theorem sram_paged_address (c : SramCfg) (adr pv : Nat) (hp : c.pageBits ≠ 0) :
+    c.portAdr adr pv =
+      slice c.wb (c.abits - c.pageBits) adr + 2 ^ (c.abits - c.pageBits) * (pv % 2 ^ c.pageBits) := by
+  simp [SramCfg.portAdr, hp, cat, Nat.mod_eq_of_lt (slice_lt _ _ _)]
 
 /-! ## Gathering: `_sort_gathered_items` -/
 
